@@ -44,7 +44,7 @@ def construct(ctxname, e, idx):
     return dict(exprstmt="%s;" % e, commalhs="(%s, k);" % e, forinc="for (k = 0; k < 1; %s) k++;" % e,
                 condarm="c ? (%s) : a;" % e, condarmvoid="c ? (void)(%s) : (void)0;" % e,
                 logand="(%s) && k;" % e, logor="(%s) || k;" % e, voidcast="(void)(%s);" % e,
-                arg="use(%s);" % e, arg7="use7(1, 2, 3, 4, 5, 6, 7, %s);" % e, vararg="usev(1, %s);" % e, init="{ T v = %s; }" % e,
+                arg="use(%s);" % e, arg7="use7(1, 2, 3, 4, 5, 6, 7, %s);" % e, oddnest="usei(%s) + k;" % e, vararg="usev(1, %s);" % e, init="{ T v = %s; }" % e,
                 **{"return": "use(r_%d(it));" % idx},
                 ifcond="if (%s) k++;" % e, assignrhs="d = %s;" % e, stmtexprdiscard="({ %s; });" % e,
                 stmtexprvalue="d = ({ k++; %s; });" % e)[ctxname]
@@ -57,7 +57,7 @@ def render_unit(ty, cases, ns=NS):
            "struct Sm { long x; int y; }; struct Bg { long x[5]; };",
            "typedef %s T;" % t["T"], "struct W { int pad; T m; };", "int gia[4];",
            "static T mk(void) { T v = %s; return v; }" % t["init"],
-           "static T id2(T x, T y) { return y; }", "static void use(T x) {}", "static void use7(int a1, int a2, int a3, int a4, int a5, int a6, int a7, T x) {}", "static void usev(int n, ...) {}",
+           "static T id2(T x, T y) { return y; }", "static void use(T x) {}", "static int usei(T x) { return 1; }", "static void use7(int a1, int a2, int a3, int a4, int a5, int a6, int a7, T x) {}", "static void usev(int n, ...) {}",
            "static int ldcheck(long double u, long double v) { long double w = u * v + u; return w == 4.375L; }"]
     for cs in cases:
         e = expr(cs["form"], ty)
@@ -77,7 +77,7 @@ def render_unit(ty, cases, ns=NS):
 
 # ---------------------------------------------------------- comma chains (Chains.tla)
 CHAIN_NS = (1, 9, 2000)
-CH_T = {"ldouble": ("long double", "L"), "double": ("double", "D"), "int": ("int", "I"), "struct": ("struct Sm", "S")}
+CH_T = {"ldouble": ("long double", "L"), "double": ("double", "D"), "int": ("int", "I"), "struct": ("struct Sc", "S")}
 
 
 def chain_expr(cs):
@@ -94,10 +94,10 @@ def chain_sig(cs):
 
 def render_chains(cases):
     src = ["int printf(const char *, ...);", "long probe_rsp(void); int probe_x87(void); void probe_reset(void);",
-           "struct Sm { long x; int y; };",
+           "struct Sc { short y; };",
            "static int ldcheck(long double u, long double v) { long double w = u * v + u; return w == 4.375L; }"]
     # operands are file-scope objects (the functions stay small: only the construct is under test)
-    init = {"L": "1.5L", "D": "2.5", "I": "3", "S": "{4, 5}"}
+    init = {"L": "1.5L", "D": "2.5", "I": "3", "S": "{4}"}
     src.append(" ".join("static %s %s;" % (t, ", ".join(["%s%d = %s" % (p, j, init[p]) for j in range(1, 5)] + ["%sR = %s" % (p, init[p]), p + "V"]))
                         for t, p in CH_T.values()))
     for cs in cases:
@@ -142,10 +142,9 @@ def render_livecalls(cls, cases):
         e = livecall_expr(cs)
         body = {"assign": "long r; r = %s; return r;" % e, "init": "long r = %s; return r;" % e, "return": "return %s;" % e}[cs["ctx"]]
         src.append("long t_%d(void) { %s }" % (cs["idx"], body))
-    src.append("int main(void) {")
-    for cs in cases:
-        src.append(" printf(\"%d %%ld\\n\", t_%d());" % (cs["idx"], cs["idx"]))
-    src.append(" return 0; }")
+    src.append("static long (*tab[])(void) = {%s};" % ", ".join("t_%d" % cs["idx"] for cs in cases))
+    src.append("static int ids[] = {%s};" % ", ".join(str(cs["idx"]) for cs in cases))
+    src.append("int main(void) { for (int i = 0; i < %d; i++) printf(\"%%d %%ld\\n\", ids[i], tab[i]()); return 0; }" % len(cases))
     return "\n".join(src) + "\n"
 
 
@@ -453,7 +452,17 @@ def run(ctx):
         ctx.assumptions.append("tree under test has no H5 hook: per-function analysis only, callee return classes from prototypes "
                                "(calls through pointers make the x87 depth unknown for the rest of the path)")
     byfn = {p["fn"]: p for p in prog}
-    viol = run_stackdisc(ctx, prog, "corpus", modes, workers=6 if q else 8)
+    # one TLC run per chunk of the corpus (bounds the size of the program constant TLC has to hold)
+    viol, chunk, size, nchunk = [], [], 0, 0
+    for p in prog + [None]:
+        if p is None or size + len(p["code"]) > 450000:
+            if chunk:
+                viol += run_stackdisc(ctx, chunk, "corpus%d" % nchunk, modes, workers=6 if q else 8)
+                nchunk += 1
+            chunk, size = [], 0
+        if p is not None:
+            chunk.append(p)
+            size += len(p["code"])
     ctx.phase("stackdisc")
     report_static(ctx, viol, byfn, casemap, unitsrc)
     nst = sum(len(p["starts"]) for p in prog)
